@@ -14,5 +14,5 @@ EmitEval == k <= Len(Progs) =>
   LET p == Progs[k]
       d == RunSess(Ctx(TRUE, TRUE, TRUE, TRUE, TRUE, TRUE, PCfg(p)), p.sess)
       w == RunSess(Ctx(AsIsStmt, AsIsTxn, AsIsSp, TRUE, TRUE, TRUE, PCfg(p)), p.sess)
-  IN PrintT(<<"@@", ToJson([trig |-> p.trig, sess |-> p.sess, want |-> d.out, asis |-> w.out, stale |-> w.stale])>>)
+  IN PrintT(<<"@@", ToJson([trig |-> p.trig, sess |-> p.sess, want |-> d.out, asis |-> w.out, stale |-> w.stale, sk |-> d.sk])>>)
 =============================================================================
